@@ -90,6 +90,12 @@ def build_layout(root: str, variant: dict):
         ("f", "sb/vocab/inner/w.oct.md", DOC.encode(), 0o644),
         ("l", "sb/vocab/ln_out", "../../out"), ("l", "sb/vocab/ln_secret.oct.md", "../../out/secret.oct.md"),
         ("l", "sb/vocab/ln_in.oct.md", "inner/w.oct.md"), ("l", "sb/vocab/ln_sibling", "../docs"),
+        # siblings whose NAMES merely start with the base directory's name (string-prefix containment checks fall for these)
+        ("d", "sb/vocab-private", 0o755), ("f", "sb/vocab-private/secret.oct.md", SECRET, 0o600),
+        ("d", "sb/vocab2", 0o755), ("f", "sb/vocab2/x.oct.md", SECRET, 0o600), ("f", "sb/vocabulary.oct.md", SECRET, 0o600),
+        ("l", "sb/vocab/ln_priv", "../vocab-private"),
+        ("d", "proj/specs/schemas-private", 0o755), ("f", "proj/specs/schemas-private/x.oct.md", SECRET, 0o644),
+        ("d", "home/.octave/standards-old", 0o755), ("f", f"home/.octave/standards-old/{GOOD_DIGEST[:16]}.oct.md", BAD_STD, 0o644),
     ]
     from .c16 import hydration_fixture
 
@@ -789,7 +795,9 @@ URI_SEGS = ["v.oct.md", "inner/w.oct.md", "inner/../v.oct.md", "../docs/a.oct.md
             "ln_secret.oct.md", "ln_in.oct.md", "ln_sibling/a.oct.md", "inner/../../docs/a.oct.md", "/etc/passwd", "<R>/out/secret.txt",
             "", ".", "..", "inner/..", "./v.oct.md", "missing.oct.md", "ln_out", "C:/x", "a\x00b", "inner//w.oct.md",
             "../vocab/v.oct.md", "../vocab/../../out/secret.txt", "~/secret", "file:///etc/passwd", "%2e%2e/docs/a.oct.md",
-            "..\\docs\\a.oct.md", "inner/../ln_out/secretdir/s.oct.md", "L" * 300]
+            "..\\docs\\a.oct.md", "inner/../ln_out/secretdir/s.oct.md", "L" * 300,
+            "../vocab-private/secret.oct.md", "../vocab2/x.oct.md", "../vocabulary.oct.md", "ln_priv/secret.oct.md",
+            "inner/../../vocab-private/secret.oct.md", "../vocab-private", "../vocab2/../vocab/v.oct.md"]
 
 
 def run_uri_case(case: dict, stats: Stats | None = None) -> dict:
@@ -896,6 +904,7 @@ def gen_name(t: Tape) -> str:
     pool = list("ABCXYZabcxyz0189_./-") + NAME_EXTRA
     if t.flag(250, "n.trap"):
         return t.pick(["../secret", "../../secret", "sub/x", "../a", "../B", "../z", "SUB/X", "../SECRET", "..", "../", "a/../../secret",
+                       "../schemas-private/x", "../SCHEMAS-PRIVATE/X",
                        "./a", "A/", "/etc/passwd", "../../../out/secret", "A\n", "META\n", "a.oct.md", "../a.oct.md", "A.OCT", "a\x00"],
                       "n.trapname")
     n = 1 + t.choose(6, "n.len")
@@ -924,7 +933,8 @@ def gen_case(kind: str, vseed: int, j: int) -> dict:
         c["tamper"] = bool((j // (3 * len(refs))) % 2)
     elif kind == "uri":
         c["uri"] = URI_SEGS[j % len(URI_SEGS)] if j < 4 * len(URI_SEGS) else "/".join(
-            t.pick(["..", "inner", "ln_out", "ln_sibling", ".", "v.oct.md", "secret.txt", "docs", "out", ""], "u.seg")
+            t.pick(["..", "inner", "ln_out", "ln_sibling", ".", "v.oct.md", "secret.txt", "docs", "out", "", "vocab-private", "vocab2",
+                    "vocabulary.oct.md", "secret.oct.md", "ln_priv", "x.oct.md", "vocab"], "u.seg")
             for _ in range(1 + t.choose(4, "u.n")))
         c["via"] = ["validate_source_uri", "check_staleness"][(j // len(URI_SEGS)) % 2]
         c["base"] = ["vocab", "via_link"][(j // (2 * len(URI_SEGS))) % 2]
